@@ -603,7 +603,7 @@ def same_run(a, b, names, exact_for=()):
 
 
 def run(ctx):
-    ctx.check_proofs(["MPilot.Props.C02"])
+    ctx.check_proofs(["MPilot.Props.C02", "MPilot.Props.C02Meta"])
     model = common.Model()
     rng = ctx.rng
     tmp = common.tmpdir("mpv_c02_")
